@@ -280,7 +280,7 @@ def run(tier, seed):
                                     theorem=pg['theorems'], problems=pg['problems']), False))
     ncases = 40 if tier == 'quick' else 600
     cases = [seed * 100000 + i for i in range(ncases)]
-    for r in core.run_cases(run_case, cases):
+    for r in core.run_cases(run_case, core.with_corpus(PID, cases)):
         rep.merge(r)
     rep.obligation('correspondence: model encode = bytes on disk (every level of every case)', not any(v[0].get('kind') == 'encode' for v in rep.violations))
     rep.obligation('correspondence: Entry.e_getitem = PlotfileCooker.__getitem__ on every generated selection',
